@@ -133,7 +133,7 @@ func (r *round) tableProbes() {
 
 func seqNames() []string {
 	return []string{"seq-clientmanager-dispose-register", "seq-locrib-dispose-late-register", "seq-adjribin-chain", "seq-adjribout-chain", "seq-adjribout-addpath-own-path", "seq-session-init-dispose", "seq-sender-destroy-blocked-writes",
-		"seq-server-reload-peer-down", "seq-server-dispose-after-collision"}
+		"seq-sender-destroy-failed-writes", "seq-server-reload-peer-down", "seq-server-dispose-after-collision", "seq-server-write-failure-teardown"}
 }
 
 func concNames() []string {
@@ -290,6 +290,31 @@ func newRound(sc Scenario, n int) *round {
 		add("peer reads again in 50 ms", func() { go func() { time.Sleep(50 * time.Millisecond); s.Gate.Unblock() }() })
 		add("session.dispose (Destroy while the sender is blocked)", func() { rg.DisposeSession(s) })
 		add("locRIB.AddPath", func() { rg.Loc.AddPath(conc.Pfxs[1], stat(41)) })
+	case "seq-sender-destroy-failed-writes":
+		// the peer goes away (every write on the connection fails) while announcements are queued for it; an aggregation
+		// round of the sender runs into the failure, a withdrawal is written directly and fails too; then the session is
+		// torn down (what every way out of Established does) and the table must still be usable
+		rg.NoStatic = true
+		for i, k := range []conc.SessionKind{ebgpSend, rrAPSend} {
+			i, k := i, k
+			var s *conc.Session
+			lp := rg.LocalPath(uint32(60+i), r.rng)
+			lp2 := rg.LocalPath(uint32(70+i), r.rng)
+			add("session.init", func() { s = rg.AddSession(i, k) })
+			add("peer goes away (writes fail)", func() { s.Gate.Break() })
+			add("locRIB.AddPath (queued)", func() { rg.Loc.AddPath(conc.Pfxs[i], lp.Build()) })
+			add("aggregation round runs into the failed write", func() {
+				for j := 0; j < 400 && s.Gate.FailedWrites() == 0; j++ {
+					time.Sleep(time.Millisecond)
+				}
+				r.note("sender_write_failures", s.Gate.FailedWrites())
+			})
+			add("locRIB.RemovePath (withdrawal fails)", func() { rg.Loc.RemovePath(conc.Pfxs[i], lp.Build()) })
+			add("locRIB.AddPath (queued after the failure)", func() { rg.Loc.AddPath(conc.Pfxs[i+2], lp2.Build()) })
+			add("sender tick", func() { time.Sleep(12 * time.Millisecond) })
+			add("session.dispose (Destroy after failed writes)", func() { rg.DisposeSession(s) })
+			add("locRIB.AddPath", func() { rg.Loc.AddPath(conc.Pfxs[i+4], rg.LocalPath(uint32(80+i), r.rng).Build()) })
+		}
 
 	// ------------------------------------------------------------------------------------------- concurrent
 	case "pipeline":
@@ -366,27 +391,45 @@ func newRound(sc Scenario, n int) *round {
 		}
 		r.workers = []conc.Worker{rg.LocMutator(p, nops), rg.LocMutator(p, nops), rg.Announcer(rg.Sessions[0], p, nops),
 			{Name: "slow-peer", Fn: func(rng *rand.Rand) {
+				// the peers stop reading for a while (writes block) or their connections break for a while (writes fail)
 				for i := 0; i < 6; i++ {
-					gates(func(g *conc.GateWriter) { g.Block() })
-					time.Sleep(time.Duration(1+rng.IntN(8)) * time.Millisecond)
-					gates(func(g *conc.GateWriter) { g.Unblock() })
+					if rng.IntN(3) == 0 {
+						gates(func(g *conc.GateWriter) { g.Break() })
+						time.Sleep(time.Duration(1+rng.IntN(8)) * time.Millisecond)
+						gates(func(g *conc.GateWriter) { g.Mend() })
+					} else {
+						gates(func(g *conc.GateWriter) { g.Block() })
+						time.Sleep(time.Duration(1+rng.IntN(8)) * time.Millisecond)
+						gates(func(g *conc.GateWriter) { g.Unblock() })
+					}
 					time.Sleep(time.Duration(rng.IntN(3)) * time.Millisecond)
 					p.Done()
 				}
 			}}}
 		r.after = func() {
-			// tear the sessions down while the peers do not read; they read again 30 ms later
-			gates(func(g *conc.GateWriter) { g.Block() })
-			go func() { time.Sleep(30 * time.Millisecond); gates(func(g *conc.GateWriter) { g.Unblock() }) }()
+			// tear the sessions down while the peers do not read (they read again 30 ms later) or after they went away
+			// (writes fail) with an announcement queued
+			gone := r.rng.IntN(2) == 0
+			if gone {
+				gates(func(g *conc.GateWriter) { g.Break() })
+			} else {
+				gates(func(g *conc.GateWriter) { g.Block() })
+				go func() { time.Sleep(30 * time.Millisecond); gates(func(g *conc.GateWriter) { g.Unblock() }) }()
+			}
 			rg.Op(p, "locRIB.AddPath", func() { rg.Loc.AddPath(conc.Pfxs[0], rg.LocalPath(50, r.rng).Build()) })
 			time.Sleep(8 * time.Millisecond)
+			var blocked, failed int64
+			gates(func(g *conc.GateWriter) { failed += g.FailedWrites() })
 			for _, s := range rg.Sessions {
 				s := s
 				rg.Op(p, "session.dispose", func() { rg.DisposeSession(s) })
 			}
-			var blocked int64
 			gates(func(g *conc.GateWriter) { blocked += g.BlockedWrites() })
 			r.note("writes_that_blocked", blocked)
+			r.note("sender_write_failures", failed)
+			if gone {
+				r.note("teardowns_after_failed_writes", int64(len(rg.Sessions)))
+			}
 			rg.Sessions = nil
 		}
 		r.tableProbes()
